@@ -533,8 +533,34 @@ def re_tables():
     return '\n'.join(lines) + '\n'
 
 
+def spec_list_skip(repo):
+    """the condition under which BaseSpecList.__init__ instantiates an item (mistral/lang/base.py), as a Lean
+    Bool: does a dict-valued item named `version` get skipped?"""
+    import ast
+    with open(os.path.join(repo, 'mistral/lang/base.py')) as f:
+        tree = ast.parse(f.read())
+    for node in tree.body:
+        if isinstance(node, ast.ClassDef) and node.name == 'BaseSpecList':
+            for fn in node.body:
+                if isinstance(fn, ast.FunctionDef) and fn.name == '__init__':
+                    loops = [n for n in ast.walk(fn) if isinstance(n, ast.For)]
+                    if len(loops) != 1:
+                        raise Refuse('BaseSpecList.__init__: expected one loop')
+                    body = loops[0].body
+                    if len(body) != 1 or not isinstance(body[0], ast.If) or body[0].orelse:
+                        raise Refuse('BaseSpecList.__init__: loop body is not a single `if`')
+                    cond = ast.unparse(body[0].test)
+                    if cond == "k != 'version'":
+                        return True
+                    if cond == "k != 'version' or isinstance(v, dict)":
+                        return False
+                    raise Refuse('BaseSpecList.__init__: condition %r not understood' % cond)
+    raise Refuse('BaseSpecList.__init__ not found')
+
+
 def generate(repo):
     data = dump_schemas(repo)
+    skips = spec_list_skip(repo)
     for cname, v in data['validators'].items():
         if v not in EXPECTED_VALIDATORS:
             raise Refuse('jsonschema picks %s for %s; the Lean interpreter models the draft-6+ validators' % (v, cname))
@@ -588,6 +614,8 @@ def generate(repo):
              'namespace Mistral.Gen.LangSchemas',
              '/-- the validator class `jsonschema.validate` picks for these schemas -/',
              'def validatorClass : String := %s' % lstr(sorted(set(data['validators'].values()))[0]),
+             '/-- BaseSpecList.__init__ (mistral/lang/base.py) skips an item named `version` even when it is a dict -/',
+             'def specListSkipsDictVersion : Bool := %s' % ('true' if skips else 'false'),
              '/-- roots of polymorphic hierarchies (never instantiated, no schema of their own in use) -/',
              'def abstractClasses : List String := [%s]' % ', '.join(lstr(x) for x in sorted(data['abstract'])),
              '']
